@@ -34,6 +34,9 @@ C04_NoDivergedListed  == IsList /\ R.master \in DOMAIN LH =>
 C04_NoLongBrokenListed == IsList => \A r \in (Val \cap DOMAIN R.notreplms) \ {R.master} : R.notreplms[r] <= R.inactms + 2000
 C04_NoDataLagJoiner   == IsList => \A r \in (Val \cap DOMAIN LH) \ (ToSet(R.old) \cup {R.master}) :
                                       (LH[r].reach /\ ~LH[r].sss) => LH[r].datalag <= R.enablelag
+\* the instant a host is marked for recovery it is out of the published list already (the list is shrunk FIRST, so that
+\* no call boundary - and no crash or failed write between the two - leaves a marked host listed)
+C04_NotListedWhenMarked == R.kind = "markwrite" => (R.host = R.master \/ R.host \notin ToSet(R.active))
 \* members are evicted only while the manager can reach the master
 C04_EvictOnlyWithMaster == IsList /\ (ToSet(R.old) \ Val) # {} /\ R.master \in DOMAIN LH => LH[R.master].reach
 =============================================================================
